@@ -750,10 +750,12 @@ class Prop:
             why = wf_attr(a)
             if why:
                 return 'attr_from_api accepted a value outside the wire invariants: code %d: %s' % (a[0], why)
-            names = ['as_path_length', 'encode', 'attr_to_api (listing)', 'Table::insert / comparison']
+            names = ['as_path_length', 'encode', 'attr_to_api (listing)', 'Table::insert / comparison', 'attr_to_api / attr_from_api of the accepted value']
             for k, d in enumerate(ds):
                 if d == [-1]:
                     return 'accepted value (code %d) panics %s' % (a[0], names[k])
+            if len(ds) > 4 and ds[4] != 0:
+                return 'a value accepted through the API (code %d) is %s when listed and added again' % (a[0], 'refused' if ds[4] == 2 else 'changed')
             return None
         if c['k'] == 2:
             if obs[0] == 0:
@@ -763,6 +765,8 @@ class Prop:
                 return 'net_from_api accepted an NLRI outside the wire invariants: ' + why
             if obs[2] == [-1]:
                 return 'accepted NLRI panics the encoder'
+            if len(obs) > 3 and obs[3] != [1, obs[1]]:
+                return 'an NLRI accepted through the API is %s when listed and added again' % ('refused' if obs[3] == [0] else 'changed')
             return None
         if c['k'] == 4:
             if obs[0] == 0:
